@@ -23,11 +23,11 @@ FALLBACK_CLAUSES = {
     "C02": ["ensures:view"],
     "C04": ["ensures:reserialises-identically", "ensures:wf"],
     "C05": ["ensures:bk"],
-    "C06": ["ensures:fresh", "ensures:frame"],
+    "C06": ["ensures:fresh", "ensures:frame", "ensures:no-internal-sharing"],
     "C07": ["ensures:view", "ensures:no-adoption", "ensures:other-unchanged", "ensures:same-object", "ensures:fill-and-plot-still-bound-to-self"],
     "C08": ["ensures:view", "ensures:wf", "ensures:iN-accessors-alias-values"],
     "C09": ["ensures:sound", "ensures:complete", "ensures:no-raise"],
-    "C10": ["raises:frame", "ensures:compatible-params", "ensures:compatible-children"],
+    "C10": ["raises:frame", "ensures:compatible-params", "ensures:compatible-children", "ensures:rejects-foreign"],
     "C12": ["raises:rollback"],
     "C15": ["ensures:valid"],
 }
